@@ -14,7 +14,8 @@ def need (ds : List Desc) : Nat := (ds.map need1).sum
 
 theorem need_append (a b : List Desc) : need (a ++ b) = need a + need b := by simp [need, List.map_append, List.sum_append]
 
-def noGarb (ds : List Desc) : Bool := ds.all fun d => match d with | .garbage => false | _ => true
+/-- no call among these ends the connection: neither an undecodable one nor one whose reply cannot be serialized -/
+def noGarb (ds : List Desc) : Bool := ds.all fun d => match d with | .garbage => false | .unser false => false | _ => true
 
 theorem noGarb_append (a b : List Desc) : noGarb (a ++ b) = (noGarb a && noGarb b) := by simp [noGarb, List.all_append]
 
@@ -308,11 +309,13 @@ theorem iter_ag (C : Consts) (hstep : 0 < C.step) (sizes : Nat → Nat) (s s' : 
               rw [List.getElem?_eq_getElem hk] at h0
               exact Option.some.inj h0
             exact ⟨by rw [List.take_succ_eq_append_getElem hk, hdk], by rw [List.getElem?_eq_getElem hk, hdk]⟩
-          have hng : c.good = true → (match d with | .garbage => false | _ => true) = true →
+          have hng : c.good = true → (match d with | .garbage => false | .unser false => false | _ => true) = true →
               noGarb (c.descs.take (c.k + 1)) = true := by
             intro hg hd
             rw [(hstepk hg).1, noGarb_append, hac.ng hg]
-            cases d <;> simp_all [noGarb]
+            cases d with
+            | unser ow => cases ow <;> simp_all [noGarb]
+            | _ => simp_all [noGarb]
           cases d with
           | garbage =>
             simp only [Option.some.injEq] at h; rw [← h]
@@ -351,6 +354,30 @@ theorem iter_ag (C : Consts) (hstep : 0 < C.step) (sizes : Nat → Nat) (s s' : 
                 exact ⟨hset _ ⟨hk.bal, hk.pos, hk.ng, hk.shape⟩, by simp, a.streams, a.dead⟩
               · simp only [Option.some.injEq] at h; rw [← h]
                 exact ⟨hsr, by simp, a.streams, hdead _ hk.bal⟩
+          | unser ow =>
+            cases ow with
+            | false =>
+              simp only [Option.some.injEq] at h; rw [← h]
+              exact ⟨hsr, by simp, a.streams, hdead _ hac.bal⟩
+            | true =>
+              have hk : AInv { c with calls := rest, k := c.k + 1 } none := by
+                refine ⟨hac.bal, ?_, fun hg => hng hg rfl, fun _ items hi => by cases hi⟩
+                intro hg
+                have := hnext 0 rfl hg
+                show c.used = need (c.descs.take (c.k + 1))
+                omega
+              simp only [] at h
+              split at h
+              · simp only [Option.some.injEq] at h; rw [← h]
+                exact ⟨hset _ hk, by simp, a.streams, a.dead⟩
+              · split at h
+                · rename_i c' hwr
+                  simp only [Option.some.injEq] at h; rw [← h]
+                  have hc' := writeTo_good _ c' _ hwr
+                  subst hc'
+                  exact ⟨hset _ ⟨hk.bal, hk.pos, hk.ng, hk.shape⟩, by simp, a.streams, a.dead⟩
+                · simp only [Option.some.injEq] at h; rw [← h]
+                  exact ⟨hsr, by simp, a.streams, hdead _ hk.bal⟩
           | fail ow =>
             have hk : AInv { c with calls := rest, k := c.k + 1 } none := by
               refine ⟨hac.bal, ?_, fun hg => hng hg rfl, fun _ items hi => by cases hi⟩
